@@ -29,6 +29,7 @@ import (
 	"hash"
 	"math/big"
 	"strings"
+	"sync"
 	"sync/atomic"
 	"time"
 
@@ -53,7 +54,7 @@ type Case struct {
 	Key      string `json:"key_hex,omitempty"`
 
 	// sig
-	Entry   string `json:"entry,omitempty"`   // VerifySignature | PublicKey.Verify | PublicKey.ReadFrom+Verify
+	Entry   string `json:"entry,omitempty"`    // VerifySignature | PublicKey.Verify | PublicKey.ReadFrom+Verify
 	KeyKind string `json:"key_kind,omitempty"` // empty | garbage | harness-der
 	Content string `json:"content,omitempty"`
 	SigLen  int    `json:"sig_len,omitempty"`
@@ -292,6 +293,27 @@ func judgeBind(serverID string, secret, key []byte) {
 	if got[0] != got[1] {
 		fail("bind/copies-disagree/"+digestShape(d), size, c, "client side %q, server side %q", got[0], got[1])
 	}
+}
+
+// concurrentBind computes session hashes for distinct triples on 16 goroutines at once (both
+// copies, real SHA-1) and compares each with the Java rendering. The schedules are not controlled
+// (this part is sampling and is labelled so in the evidence); it exists because a digest routine
+// that shares scratch state between calls is only wrong when calls overlap.
+func concurrentBind() {
+	const workers, per = 16, 3000
+	var wg sync.WaitGroup
+	for w := 0; w < workers; w++ {
+		wg.Add(1)
+		go func(w int) {
+			defer wg.Done()
+			for i := 0; i < per; i++ {
+				judgeBind(fmt.Sprintf("c%d-%d", w, i), []byte{byte(w), byte(i), byte(i >> 8), 0x5a}, []byte{0x30, 0x82, byte(i)})
+			}
+		}(w)
+	}
+	wg.Wait()
+	rep.Eval(workers * per)
+	rep.Count("concurrent_binding_calls_uncontrolled_schedules", workers*per)
 }
 
 func clipH(b []byte) []byte {
@@ -550,7 +572,9 @@ func judgeReplay() {
 	rep.Eval(1)
 	for _, kind := range []string{"empty", "garbage"} {
 		var accepted bool
-		engine.Guard(func() { accepted = user.VerifySignature(append([]byte(nil), fam.keyInputs[kind]...), append([]byte(nil), sig...)) })
+		engine.Guard(func() {
+			accepted = user.VerifySignature(append([]byte(nil), fam.keyInputs[kind]...), append([]byte(nil), sig...))
+		})
 		rep.Eval(1)
 		if accepted {
 			fail("sig/VerifySignature/forgery-accepted/genuine-signature-replayed-with-another-key", fam.k, c, "a signature that verified for its own key was then accepted for the %s key input", kind)
@@ -720,6 +744,17 @@ func selftest() {
 func main() {
 	rep = engine.NewReport("C18")
 	rep.Rule = "uuid: every listed name and every 1-/2-byte name; twos: every byte string of length <=3 and every grammar digest, per copy; digest: every [lz zero bytes][head][body][tz zero bytes] 20-byte string (head 1..255, 4 zero-free bodies, all lz/tz; plus all 65536 two-byte heads) — the grammar is injective; bind: every (serverID, secret, key) of the product alphabets and every counter-suffixed server id; sig: every (entry, key input, content, length). distinct = enumerated tuples; non-trivial = all except the empty name / empty byte string"
+	if rep.ReplayPath == "" {
+		concurrentBind() // before the seam is ever installed: only real SHA-1 objects exist
+		if rep.Failed() {
+			// state shared between digest calls would also confuse the seam's self-test: report now
+			rep.Cap("the seam-driven parts were skipped because the concurrent binding pass already failed")
+			rep.Sample(Case{Part: "bind"})
+			rep.AddStates(1)
+			rep.AddTrans(1)
+			rep.Finish()
+		}
+	}
 	selftest()
 	if rep.ReplayPath != "" {
 		rp, err := engine.LoadReplay(rep.ReplayPath)
